@@ -110,7 +110,7 @@ class Check:
         if constants:
             txt = open(cfgpath).read()
             for k, v in constants.items():
-                txt, n = re.subn(rf"(?m)^(\s*{re.escape(k)}\s*=\s*).*$", lambda m: m.group(1) + v, txt)
+                txt, n = re.subn(rf"(?m)^(\s*{re.escape(k)}\s*(?:=|<-)\s*).*$", lambda m: m.group(1) + v, txt)
                 if n == 0:
                     raise Infra(f"constant {k} not in {cfg}")
             open(cfgpath, "w").write(txt)
